@@ -52,6 +52,7 @@ OUTSHAPES = [('out', 'out.c'), ('out', './out.c'), ('out', '../out/out.c'), ('ou
              ('out', LONGDIR + '/out.c'), ('cwd', '../lnk/out.c'), ('cwd', '../out/sub/a_rather_long_basename_for_the_output_file.c'), ('out', 'sub/../out.c'),
              # no extension in the file name while a DIRECTORY component contains a dot
              ('out', LONGDIR + '/' + 'M' * 60 + '/out.c'),      # the directory part of a RELATIVE output path is longer than 255 bytes
+             ('out', 'out.c/'), ('cwd', '../out/sub/out.c//'),      # trailing separators after the file name
              ('out', './outx'), ('cwd', '../out/outx'), ('out', 'sub.d/outx'), ('cwd', 'ABS/out/sub.d/outx'), ('out', 'sub.d/out.c')]
 
 
